@@ -217,6 +217,20 @@ def r3_raise_before_store(R) -> None:
                             where=f.where(en))
             else:
                 R.ok(q, f'nothing is changed on any path to `raise {cls}` (L{r.lineno})')
+    # bulk and keyed assignment: unknown names raise KeyError and nothing is created
+    rv = Fn(R, f'{VC}.replace_values')
+    calls = [x for x in ast.walk(rv.fi.node) if is_self_call(x)]
+    ok = len(calls) == 1 and calls[0].func.attr == '__setitem__' and len(calls[0].args) == 2
+    R.check(ok, rv.q, 'replace-via-setitem:' + (text(calls[0].func) if calls else '?'), 'replace_values assigns through __setitem__ (unknown names raise KeyError)',
+            f'replace_values assigns through `{text(calls[0].func) if calls else "?"}`: an unknown name would be created as a plain attribute instead of raising KeyError',
+            where=rv.fi.where)
+    si = Fn(R, f'{VC}.__setitem__')
+    whole = si.nodes_with(lambda x: is_self_call(x, '__setattr__'))
+    for n in whole:
+        g = [(text(a), truth) for (a, truth, _t) in si.guard_atoms(n.id)]
+        ok = ("key not in self.__dict__['index']", False) in g or ("key in self.__dict__['index']", True) in g
+        R.check(ok, si.q, 'setitem-unknown-name', 'obj[name] = value for an unknown name raises KeyError before anything is set',
+                f'the whole-series path of __setitem__ is guarded by {g}: an unknown name is not rejected', where=si.where(n))
     # ModelInterface.add_variable: names extended only after the base call succeeded
     g = Fn(R, f'{MI}.add_variable')
     base = g.nodes_with(lambda x: is_super_call(x, 'add_variable'))
